@@ -105,14 +105,17 @@ def main(argv=None):
     mod = importlib.import_module("vt.props." + args.prop.lower())
     t0 = time.time()
     try:
-        shards = mod.shards(tier)
-        # VERIF_SEED only rotates the order in which shards are visited (exploration is exhaustive).
-        if shards:
-            r = seed % len(shards)
-            order = shards[r:] + shards[:r]
+        if hasattr(mod, "run"):
+            acc = mod.run(tier, seed)
         else:
-            order = shards
-        acc = core.run_pool("vt.props." + args.prop.lower(), order, tier, nproc=args.nproc)
+            shards = mod.shards(tier)
+            # VERIF_SEED only rotates the order in which shards are visited (exploration is exhaustive).
+            if shards:
+                r = seed % len(shards)
+                order = shards[r:] + shards[:r]
+            else:
+                order = shards
+            acc = core.run_pool("vt.props." + args.prop.lower(), order, tier, nproc=args.nproc)
         extra = mod.finalize(acc, tier) if hasattr(mod, "finalize") else None
     except core.HarnessError as e:
         sys.stderr.write("HARNESS-ERROR %s\n" % e)
